@@ -273,6 +273,10 @@ func ValidateProgramRevision(current, revision types.FileContractRevision, stora
 		return types.ZeroCurrency, err
 	}
 
+	if len(current.MissedProofOutputs) < 3 {
+		return types.ZeroCurrency, errors.New("current revision must have a void output")
+	}
+
 	// calculate the amount of SC that the host is expected to burn
 	hostBurn, underflow := current.MissedHostPayout().SubWithUnderflow(revision.MissedHostPayout())
 	if underflow {
@@ -280,8 +284,10 @@ func ValidateProgramRevision(current, revision types.FileContractRevision, stora
 	}
 
 	// validate that the host is not burning more than the expected amount
-	expectedBurn := storage.Add(collateral)
-	if hostBurn.Cmp(expectedBurn) > 0 {
+	expectedBurn, overflow := storage.AddWithOverflow(collateral)
+	if overflow {
+		return types.ZeroCurrency, errors.New("expected burn overflows")
+	} else if hostBurn.Cmp(expectedBurn) > 0 {
 		return types.ZeroCurrency, fmt.Errorf("host expected to burn at most %d, but burned %d", expectedBurn, hostBurn)
 	}
 
